@@ -5,7 +5,8 @@
    gives the verdict OPPOSITE to what the built-in interpreter would say (or sets a marker attribute), so which one
    decided an operation is visible in its outcome as well as in the recorded set of callbacks that ran.        *)
 EXTENDS ModelLib
-CONSTANT PreActivate      \* activate the native interpreter BEFORE the tables exist (the flag must reach tables created later)
+CONSTANTS SwapFirst,      \* SetInterpreter(another instance) right after the tables are created: registrations and activation follow
+          PreActivate      \* activate the native interpreter BEFORE the tables exist (the flag must reach tables created later)
 TA == "tbl1"
 TB == "tbl2"
 B(str) == str
@@ -44,6 +45,7 @@ Requests ==
   \cup { QueryT(TA), QueryT(TB), ScanH(TA) }
 SetupDef == (IF PreActivate THEN << [op |-> "NativeActivate", c |-> "c1"] >> ELSE <<>>)
             \o << AddTable("c1", TA, "h", ""), AddTable("c1", TB, "h", ""), Put(TA, Item), Put(TB, Item) >>
+            \o (IF SwapFirst THEN << [op |-> "NativeSwap", c |-> "c1"] >> ELSE <<>>)
 MenuDef == SetToSeq(Regs) \o SetToSeq(Requests) \o << [op |-> "NativeActivate", c |-> "c1"], Put(TA, Item), Put(TB, Item) >>
 BoundDef(d) == TRUE
 =============================================================================
